@@ -38,6 +38,23 @@ func runC07(w *World) {
 	style := w.knob("style", 3)
 	nodl := w.knob("nodeadlines", 2) == 1
 	burst := w.knob("burst", 6) == 1
+	// one run in five starts with a collection of 40 objects that the clients then delete by
+	// pattern, count, and write into: a command that touches many objects is still one step
+	bulk := w.knob("bulk", 5) == 1
+	if bulk {
+		var lp []Cmd
+		for j := 0; j < 40; j++ {
+			lp = append(lp, Cmd{Args: []string{"SET", "k1", fmt.Sprintf("m%02d", j), "POINT", fmt.Sprint(10 + j), "20"}, Pipe: true})
+		}
+		loader := w.addActor(n, "127.0.0.1:50099", lp)
+		loader.onReply = func(op *Op) { hc.onReply(op, loader.end.c.name) }
+		if !w.Drain(60*time.Second, loader.done) {
+			if !w.failed() {
+				w.harnessErr("loader did not finish")
+			}
+			return
+		}
+	}
 	var clients []*Actor
 	for i := 0; i < nc; i++ {
 		i := i
@@ -59,7 +76,21 @@ func runC07(w *World) {
 			}
 			var p []Cmd
 			for j := 0; j < per; j++ {
-				if r.Intn(12) == 0 {
+				if bulk && r.Intn(5) == 0 {
+					m := fmt.Sprintf("m%02d", r.Intn(40))
+					switch r.Intn(6) {
+					case 0:
+						p = append(p, Cmd{Args: []string{"PDEL", "k1", "m*"}})
+					case 1:
+						p = append(p, Cmd{Args: []string{"PDEL", "k1", []string{"m0*", "m1*", "m2*", "m*"}[r.Intn(4)]}})
+					case 2, 3:
+						p = append(p, Cmd{Args: []string{"SET", "k1", m, "POINT", g.lat(r), g.lon(r)}})
+					case 4:
+						p = append(p, Cmd{Args: []string{"SCAN", "k1", "COUNT"}})
+					default:
+						p = append(p, Cmd{Args: []string{"SCAN", "k1", "LIMIT", "10000"}})
+					}
+				} else if r.Intn(12) == 0 {
 					p = appendScript(p, r, scriptCmd(r, g))
 				} else {
 					p = append(p, g.cmd(r))
@@ -199,7 +230,7 @@ func runC07(w *World) {
 	w.stat("c07.ops_checked", hc.nChecked)
 	w.stat("c07.ops_with_wide_window", hc.nWindows)
 	w.nontriv = overlap >= 2 && hc.nWindows >= 1
-	if !w.failed() && len(ops) <= 40 {
+	if !w.failed() && len(ops) <= 40 && !bulk { // (the second opinion starts from an empty dataset)
 		porcupineCheck(w, ops, "C07")
 	}
 	var sm []string
@@ -255,6 +286,13 @@ func porcupineCheck(w *World, ops []*Op, class string) {
 		for _, a := range op.Cmd.Args {
 			if a == "EX" || a == "EXPIRE" {
 				hasDL = true
+			}
+		}
+		for _, in := range op.Cmd.Inner {
+			for _, a := range in {
+				if a == "EX" || a == "EXPIRE" {
+					hasDL = true
+				}
 			}
 		}
 		if (op.name() == "evalna" || op.name() == "evalnasha") && len(op.Cmd.Inner) > 1 {
